@@ -266,7 +266,12 @@ def enum_broadcast():
                lambda s0=s0, s1=s1, s2=s2: pt.where(
                    _ph("c", s0, "bool"), _ph("a", s1, "float64"),
                    _ph("b", s2, "float64")))
-    for s1, s2 in itertools.product(_shapes(3, 3), _shapes(3, 3)):
+    # (operands of different rank, both >= 3: batch axes align at the end)
+    mixed = [(a, b) for a in itertools.product((1, 2, 3), (2, 3), (2,))
+             for b in itertools.product((1, 2), (1, 2, 3), (2,), (2, 3))]
+    mixed += [(b[:2] + (b[3], b[2]), a[:1] + (a[2], a[1])) for a, b in mixed]
+    for s1, s2 in itertools.chain(
+            itertools.product(_shapes(3, 3), _shapes(3, 3)), mixed):
         yield (f"matmul({list(s1)}, {list(s2)})", "matmul|shapes", True,
                lambda s1=s1, s2=s2: _ones(s1, "float64") @ _ones(s2, "float64"),
                lambda s1=s1, s2=s2: _ph("a", s1, "float64") @ _ph(
